@@ -56,6 +56,10 @@ func (pq *plotterQueue) PopItem() *queuedWorkSpace {
 	pq.Lock()
 	defer pq.Unlock()
 
+	// a stop, remove or delete request may have emptied the queue since the caller saw it non-empty
+	if pq.Prque.Empty() {
+		return nil
+	}
 	ws := pq.Prque.PopItem().(*queuedWorkSpace)
 	pq.poppedItem = ws
 	return ws
@@ -176,6 +180,9 @@ func (sk *SpaceKeeper) spacePlotter() {
 			}
 
 			qws := sk.queue.PopItem()
+			if qws == nil {
+				continue
+			}
 			verifGate(sk, "popped")
 			killMonitorCh := make(chan struct{}, 1)
 			wg.Add(1)
